@@ -412,7 +412,7 @@ func main() {
 		}
 		// the commit proper: the writes up to and including the one that saves the state; the writes
 		// after it belong to the consensus of the next height (WAL, signer file)
-		budget := r.Scale(14, 70)
+		budget := r.Scale(14, 40)
 		type pt struct {
 			h     int64
 			j, j2 int
